@@ -134,14 +134,15 @@ CHECKS['C14'] = dict(
 CHECKS['C12'] = dict(
     text='Theorems (unbounded: any period list, clock, depth, repetition count): C12_vod_contiguous (Periods contiguous from 0 with '
          'the stored durations), C12_live_contiguous, C12_live_cover_partial (the first listed Period contains the start of the '
-         'time-shift window; every listed one reaches into it and starts no later than now), C12_ids_unique ((period, repetition) '
+         'time-shift window; every listed one reaches into it and starts no later than now), C12_live_reaches_now + C12_live_cover (the '
+         'model loop never runs out of fuel before it passes now - the termination argument of the while loop - so every instant of '
+         '[firstAvailableTime, now] lies in a listed Period), C12_ids_unique ((period, repetition) '
          'never repeats), C12_numbers (number startNumber+k delivers source segment m0+k, m0 = nearest-start segment of the Period\'s '
          'source offset; beyond the source: refused), C12_decode_times (zero at the Period start, gapless); C12_refuted_wrap is a '
          'recorded finding. Tied to /repo over HTTP: real /mps manifests and segments of generated multi-period definitions '
          'against the models, payloads compared with the stored segments by an independent box walker.',
     note=TB + 'multi-period definitions are inserted through the SQLAlchemy models; Jinja rendering of Period elements and Flask routing '
-         'are exercised, not modelled; float total_seconds() modelled as exact rationals; PARTIAL: "covers up to now" (the loop runs '
-         'until start > elapsed) is checked by correspondence and oracle, the theorem covers the window start.',
+         'are exercised, not modelled; float total_seconds() modelled as exact rationals.',
     technique='Coq proof (induction over the period loop with a contiguity/ordering invariant; segment-walk lemmas of C02) + HTTP '
               'differential correspondence + property oracle',
     design='C12')
